@@ -92,6 +92,9 @@ class C19(SchedProp):
         'CylcModel.C19.restart_tasks_to_hold_partial',
         'CylcModel.C19.spawn_after_restart',
         'CylcModel.C19.successive_restarts',
+        'CylcModel.C19.with_broadcasts_is_sched2',
+        'CylcModel.C19.restart_broadcasts',
+        'CylcModel.C19.broadcast_table_holds_store',
         'CylcModel.Sched2.restart_spec',
         'CylcModel.Sched2.inv_run',
         'CylcModel.Sched2.nodup_run',
@@ -119,8 +122,17 @@ class C19(SchedProp):
         'is false as stated for plans in which a retried job does not repeat an output of its first try, by the first '
         'finding); what is proved towards it: the spawn-on-demand decision after a restart equals the one before '
         '(spawn_after_restart), history / absolute outputs / holds are preserved, Inv is re-established by restart. The '
-        'second sentence of the property is decided on real runs by the differential judge. NOT IN THE FROZEN MODEL and '
-        'therefore neither proved nor predicted: broadcasts, the flow counter (single flow; the judge still compares the '
+        'second sentence of the property is decided on real runs by the differential judge. BROADCASTS: the model of the generated runs is '
+        'Sched2B = the frozen Sched2 paired with the broadcast store and its broadcast_states queue (Bcast, the component '
+        'model of C22; Sched2.lean untouched): broadcast set / clear / expire requests between main loops, the automatic '
+        'expiry and the database write of every main loop, load on restart. Proved for every state of every Sched2B run '
+        '(with_broadcasts_is_sched2: its scheduler side is a Sched2 run, so all the above applies; restart_broadcasts: a '
+        'stop + restart gives back the same value or absence for every (point, namespace, key), no duplicates; '
+        'broadcast_table_holds_store: the table with its pending deletes and inserts written is the store item by item), '
+        'by lifting the invariant Bcast.Persist of C22 through every op; hypotheses checked by the driver on every case: '
+        'key paths without brackets, one item per setting dictionary (multi-item settings and value coercion are C22). '
+        'NOT IN THE FROZEN MODEL and '
+        'therefore neither proved nor predicted: the flow counter (single flow; the judge still compares the '
         'real flow counter before/after), xtrigger satisfaction, and the six-table DB image itself (the model restarts '
         'from the live state of the stopped scheduler).')
     technique = ('field-by-field theorems about the restart function of a Lean scheduler model + inductive invariant over op '
@@ -134,14 +146,19 @@ class C19(SchedProp):
     ]
     unmodelled = SchedProp.unmodelled + [
         'restart: the model restarts from the live state of the stopped scheduler, not from a model of the six joined DB '
-        'tables (tied by the trace correspondence, the DB layer itself is C21); broadcasts, the flow counter and '
-        'xtrigger satisfaction are not in the frozen model (single flow, no broadcasts / xtriggers generated; the flow '
-        'counter is checked by the judge on the real traces only)',
+        'tables (tied by the trace correspondence, the DB layer itself is C21) - except for broadcasts, whose table and '
+        'pending deletes / inserts are modelled (Sched2B); the flow counter and xtrigger satisfaction are not in the '
+        'frozen model (single flow, no xtriggers generated; the flow counter is checked by the judge on the real traces '
+        'only); broadcast values are opaque strings, one item per setting (coercion, multi-item settings: C22)',
     ]
     rule = ('three families of generated runs of the real Scheduler (integer-cycling workflows, 2-6 tasks, 1-3 recurrences, '
             'AND/OR triggers, offsets, optional/custom outputs, retries, runahead P0-P3): (1) command runs (complete and '
             'failing/noisy job outcomes) with a command mix rich in stop / stop --now / stop --now --now, holds, hold points, '
-            'stop points, stop tasks, pause/resume and 1-3 restarts; (2) uninterrupted base runs whose job outcomes are a '
+            'stop points, stop tasks, pause/resume and 1-3 restarts; in all three families bursts of 2-4 broadcast set / clear / '
+            'expire requests with no main loop in between, over a small universe of cycle points (pooled cycles, the next '
+            'ones, *), namespaces (tasks, root) and keys, clears and expiries aimed at what is set so that set and cancel '
+            'in one database-write window share point, namespace or key (and the automatic expiry of passed cycles does '
+            'the same); (2) uninterrupted base runs whose job outcomes are a '
             'function of (seed, point, name, submit number); (3) for each base run, variants stopped (both modes, '
             '--now --now too) after the k-th main loop for k spread over the whole base run (thorough: 16 positions per '
             'workflow, i.e. every iteration of runs up to 16 loops) and restarted, a third of them stopped and restarted '
